@@ -33,10 +33,17 @@ for pid in all_ids:
                 spec["explanation"]),
             "design_ref": "DESIGN.md section 4, " + pid,
         },
-        "level_note": spec.get("level_note") or (
+        "level_note": (("Also evaluated for this property: the "
+                        "obligations of the shared-machinery rules (%s) in "
+                        "every function reachable, in the resolved call "
+                        "graph, from its entry points (%s). " % (
+                            ", ".join(P.CORE_RULES),
+                            ", ".join(P.ENTRY_POINTS[pid])))
+                       if pid in getattr(P, "ENTRY_POINTS", {}) else "") + (
+            spec.get("level_note") or (
             "Holds for all inputs for the clauses decided, not for the "
             "behaviour as a whole. Trusted: " + "; ".join(spec.get("trusted", [])) +
-            ". Assumes: " + "; ".join(spec.get("assumptions", []) or ["-"])),
+            ". Assumes: " + "; ".join(spec.get("assumptions", []) or ["-"]))),
         "technique": spec.get("technique", "static analysis (AST, resolved call graph, abstract interpretation)"),
     })
 na = []
